@@ -287,4 +287,33 @@ def check_C14(pid, tier, seed, verdict):
                  "the peer's answers are delivered without transport delay beyond the configured round trip"]
 
 
-CHECKS = {"C14": check_C14, "C09": check_C09, "C11": check_C11, "C01": check_C01, "C02": check_C02, "C03": check_C03, "C04": check_C04, "C05": check_C05}
+# ------------------------------------------------------------------------------------------- C10
+def check_C10(pid, tier, seed, verdict):
+    thorough = tier == "thorough"
+    mcs = [mc_must_hold(pid, verdict, "Open.tla", "MC_Open.cfg", workers=4)]
+    g = V.run_gen(pid, "Open.tla", "Gen_Open.cfg")
+    mcs.append(g)
+    scs = V.sample(g["scenarios"], None if thorough else 400, seed)
+    sp = os.path.join(V.workdir(pid), "gen.scn")
+    V.write_scenarios(sp, scs)
+    run = V.run_harness(pid, "open", seed, tier, sp)
+    res = V.run_trace(pid, "Trace_Open.tla", "Trace_Open.cfg", run["trace"])
+    verdict.add_trace_result("open", res, run)
+    cnt = res["cnt"]
+    V.log(f"[{pid}] trace: {cnt['scn']} scenarios, {cnt['req']} requests, {cnt['done']} completions judged, "
+          f"{cnt['taccept']} target accepts, bad={len(res['bad'])}")
+    cov = _cov(mcs, cnt["scn"], cnt["nontrivial"],
+               "scenario = (in memory, virtual time) three racing opens on a real client Session against a scripted server "
+               "replaying one TLC-enumerated order of answers (ok / error / duplicate / for unknown ids, fragmented) and session "
+               "death (EOF, reset, owner close); or (end to end, real time) 1-5 racing requests through Client::create_proxy_"
+               "stream and the SOCKS5 front-end against the real server with accepting, refusing and unresolvable targets and "
+               "application bytes pipelined before the reply; non-trivial = scenarios with at least one completion judged",
+               V.sample_descrs(run["descr"]), True,
+               dict(behaviours_generated=len(g["scenarios"]), behaviours_replayed=len(scs), trace_events=res["lines"],
+                    event_counts=cnt))
+    return cov, ["the 30 s SYNACK timeout of Client::create_proxy_stream itself (a server that never answers) is not driven: "
+                 "it needs a scripted TLS server and 30 s of real time; the timeout outcome is covered at model level only",
+                 "reason texts are not compared, only the verdict class"]
+
+
+CHECKS = {"C10": check_C10, "C14": check_C14, "C09": check_C09, "C11": check_C11, "C01": check_C01, "C02": check_C02, "C03": check_C03, "C04": check_C04, "C05": check_C05}
